@@ -44,6 +44,7 @@ const (
 	vArenaMax   = 256
 	vViewLo     = uint64(0x300000000000)
 	vViewHi     = uint64(0x400000000000)
+	vLowViewHi  = uint64(0x10000) // the lowest 16 pages can be shown too (page 0 included)
 	vPoison     = uint64(0x5B5B5B5B5B5B5B5B)
 	vPhysMask   = uint64(0x000ffffffffff000)
 	vP          = uint64(1)
@@ -459,7 +460,7 @@ func (r *vRun) runCase(nums []uint64) (obs []uint64) {
 		op := cur.Next()
 		var args []uint64
 		var secs []vSection
-		nargs := map[uint64]int{0: 3, 1: 1, 2: 1, 3: 1, 4: 2, 5: 4, 6: 2, 7: 1, 8: 3, 9: 3, 10: 3, 11: 2, 12: 0, 13: 2, 14: 1, 15: 1, 16: 1, 17: 3, 18: 3}
+		nargs := map[uint64]int{0: 3, 1: 1, 2: 1, 3: 1, 4: 2, 5: 4, 6: 2, 7: 1, 8: 3, 9: 3, 10: 3, 11: 2, 12: 0, 13: 2, 14: 1, 15: 1, 16: 1, 17: 3, 18: 3, 19: 4}
 		n, okop := nargs[op]
 		if !okop {
 			obs = append(obs, 0xBAD0, op)
@@ -500,6 +501,11 @@ func (r *vRun) runCase(nums []uint64) (obs []uint64) {
 // step runs one op on the real code. res = [code, value, nflush, flushes..., nswitch, switches...]
 func (r *vRun) step(op uint64, a []uint64, secs []vSection) (res []uint64, stray bool) {
 	s := r.s
+	var regRSP, regRIP uint64
+	if op == 19 { // a fault with the interrupted register context
+		regRSP, regRIP = a[2], a[3]
+		op = 13
+	}
 	s.flushes, s.switches, s.allocs, s.allocErr, s.tmpErr = nil, nil, nil, false, false
 	var code, val uint64
 	before := r.snapshot()
@@ -510,6 +516,7 @@ func (r *vRun) step(op uint64, a []uint64, secs []vSection) (res []uint64, stray
 	}
 	pre := r.preOp(op, a)
 	var view uintptr
+	haveView := false
 	strayWhat := ""
 
 	func() {
@@ -584,16 +591,17 @@ func (r *vRun) step(op uint64, a []uint64, secs []vSection) (res []uint64, stray
 			readCR2Fn = func() uint64 { return addr }
 			// the data side of the MMU: the faulting page shows the frame its translation names
 			pg := addr &^ 0xfff
-			if pg >= vViewLo && pg < vViewHi {
+			if (pg >= vViewLo && pg < vViewHi) || pg < vLowViewHi {
 				if f, ok := s.hw(pg); ok {
 					v, err := vmmap(uintptr(pg), 4096, syscall.PROT_READ, syscall.MAP_SHARED|vMapFixedNoReplace, s.fd, int64((f-s.lo)*4096))
 					if err != nil || v != uintptr(pg) {
-						panic(fmt.Sprintf("view mmap at %#x failed: %v", pg, err))
+						panic(fmt.Sprintf("view mmap at %#x failed: %v (faults on the lowest pages need mmap_min_addr = 0 or root)", pg, err))
 					}
-					view = v
+					view, haveView = v, true
 				}
 			}
 			var regs gate.Registers
+			regs.RSP, regs.RIP, regs.RBP = regRSP, regRIP, regRSP+16
 			if op == 13 {
 				regs.Info = a[1]
 				pageFaultHandler(&regs)
@@ -641,7 +649,7 @@ func (r *vRun) step(op uint64, a []uint64, secs []vSection) (res []uint64, stray
 			}
 		}
 	}()
-	if view != 0 {
+	if haveView {
 		syscall.Syscall(syscall.SYS_MUNMAP, view, 4096, 0)
 	}
 	if stray {
